@@ -70,61 +70,6 @@ theorem cnt_replicateKnots (ks : List Rat) (ms : List Nat) (hnd : ks.Nodup) (hle
         simp only [hne, if_false, zero_add]
         exact ih ms hnd'.2 (by simpa using hlen) i (by simpa using hi)
 
-theorem insSorted_nodup (a : Rat) (l : List Rat) (h : (a :: l).Nodup) : (insSorted a l).Nodup := by
-  induction l with
-  | nil => simpa [insSorted] using h
-  | cons b l ih =>
-    simp only [insSorted]
-    split
-    · exact h
-    · have h' := List.nodup_cons.mp h
-      have hb := List.nodup_cons.mp h'.2
-      rw [List.nodup_cons]
-      constructor
-      · rw [mem_insSorted]
-        rintro (e | e)
-        · exact h'.1 (by simp [e])
-        · exact hb.1 e
-      · apply ih
-        rw [List.nodup_cons]
-        exact ⟨fun e => h'.1 (List.mem_cons_of_mem _ e), hb.2⟩
-
-theorem isort_nodup (l : List Rat) (h : l.Nodup) : (isort l).Nodup := by
-  induction l with
-  | nil => simp [isort]
-  | cons a l ih =>
-    have h' := List.nodup_cons.mp h
-    simp only [isort]
-    apply insSorted_nodup
-    rw [List.nodup_cons]
-    exact ⟨fun e => h'.1 ((mem_isort a l).mp e), ih h'.2⟩
-
-theorem tol6_pos : (0 : Rat) < tol6 := by unfold tol6; decide +kernel
-
-theorem getUniqueAux_nodup (xs acc : List Rat) (h : acc.Nodup) : (getUniqueAux acc xs).Nodup := by
-  induction xs generalizing acc with
-  | nil => simpa [getUniqueAux] using h
-  | cons y ys ih =>
-    simp only [getUniqueAux]
-    split
-    · exact ih acc h
-    · rename_i hany
-      apply ih
-      rw [List.nodup_append]
-      refine ⟨h, by simp, ?_⟩
-      intro a ha b hb
-      simp only [List.mem_singleton] at hb
-      subst hb
-      intro e
-      subst e
-      apply hany
-      simp only [List.any_eq_true, decide_eq_true_eq]
-      exact ⟨a, ha, by rw [sub_self, rabs_zero]; exact tol6_pos⟩
-
-/-- the merged knot list of a union never repeats a value -/
-theorem getUnique_nodup (xs : List Rat) : (getUnique xs).Nodup :=
-  isort_nodup _ (getUniqueAux_nodup xs [] List.nodup_nil)
-
 /-- **C17 (different intervals).**  Union and intersection of vectors on different intervals raise ValueError. -/
 theorem C17_different_intervals (a b : KV) (h : a.limits ≠ b.limits) :
     a.union b = .error .value ∧ a.inter b = .error .value := by
